@@ -1952,6 +1952,9 @@ func (i *invocation) decrementExecutingWorkersCount(bq *InMemoryBuildQueue, w *w
 			break
 		}
 		heapMaybeFix(&i.parent.queuedChildren, i.queuedChildrenIndex)
+		// The order of the parent's queued children may have
+		// changed, so the priority it competes with as well.
+		i.parent.updateFirstOperationPriority()
 		heapMaybeFix(&i.parent.idleSynchronizingWorkersChildren, i.idleSynchronizingWorkersChildrenIndex)
 		i.removeIfEmpty()
 		i = i.parent
@@ -1969,6 +1972,9 @@ func (i *invocation) incrementExecutingWorkersCount(bq *InMemoryBuildQueue, w *w
 			break
 		}
 		heapMaybeFix(&i.parent.queuedChildren, i.queuedChildrenIndex)
+		// The order of the parent's queued children may have
+		// changed, so the priority it competes with as well.
+		i.parent.updateFirstOperationPriority()
 		heapMaybeFix(&i.parent.idleSynchronizingWorkersChildren, i.idleSynchronizingWorkersChildrenIndex)
 		i = i.parent
 	}
